@@ -40,7 +40,8 @@ struct PatSet {
   std::vector<uint64_t> table;  // open-addressed set of 8-byte windows; 0 = empty
   std::vector<std::pair<uint64_t, const char *>> all;  // window -> encoding name
   uint64_t mask = 0;
-  bool empty() const { return all.empty(); }
+  std::vector<std::pair<std::string, const char *>> shorts;   // whole short secrets (6-7 bytes) in the byte-wise encodings
+  bool empty() const { return all.empty() && shorts.empty(); }
   void build(const std::string &secret);
   // returns encoding name of the first window found in [p,p+n), offset in *off
   const char *scan(const void *p, size_t n, size_t *off) const __attribute__((no_sanitize("address")));
